@@ -65,6 +65,10 @@ fn main() {
             }
         }
         "c19-child" => std::process::exit(props::c19::child_main(&args[2..])),
+        "c08-child" => {
+            subject::install_panic_hook();
+            std::process::exit(props::c08::child_main(&args[2..]))
+        }
         "pristine" => std::process::exit(props::c14::pristine_main()),
         "replay" => {
             if args.len() < 3 {
